@@ -173,6 +173,7 @@ def _run_path(unit, decisions, contracts, ctx):
     post_env['effects'] = ctx.effects
     post_env['locals_'] = frame.locals
     post_env['hooks_'] = ip.hooks
+    post_env['ghosts_'] = dict(env_all)
     if outcome == 'return' and isinstance(result, api.Lemmas):
         for label, formula in result.items:
             ctx.oblige(f"{unit.name}/lemma.{label}", formula, kind='lemma', assume_after=False)
